@@ -29,11 +29,21 @@ type envFlow struct {
 	base  ssa.Value
 	entry map[ssa.Value]bool          // loads of the env cell that see the value the function was entered with
 	ctors map[*ssa.Function]token.Pos // env methods whose result the flow took for a fresh child of their receiver
+	// scope-setting helpers ("run this block in a new child of env and make env current again"): a function on the record with
+	// one scope parameter. Inside it the parameter plays the part of the entry scope (whatever the cell held on entry is
+	// unknown); at a call of it the cell becomes what was passed for the parameter.
+	paramScope  ssa.Value
+	scopeParamK map[*ssa.Function]int
 }
 
 // The state is "<current>;<pending>": what the scope cell holds now, and what a deferred function literal registered so far will
 // store into it when the function returns ("" = none).
-func (f *envFlow) Entry() string        { return envOrig + ";" }
+func (f *envFlow) Entry() string {
+	if f.paramScope != nil {
+		return envOther + ";"
+	}
+	return envOrig + ";"
+}
 func (f *envFlow) Copy(s string) string { return s }
 func envCur(s string) string {
 	if i := strings.Index(s, ";"); i >= 0 {
@@ -61,7 +71,10 @@ func (f *envFlow) Join(a, b string) (string, bool) {
 	return j, j != a
 }
 func (f *envFlow) classify(v ssa.Value) string {
-	if f.entry[v] {
+	if f.entry[v] && f.paramScope == nil {
+		return envOrig
+	}
+	if f.paramScope != nil && v == f.paramScope {
 		return envOrig
 	}
 	if sv := spilledValue(v); sv != nil {
@@ -140,6 +153,12 @@ func (f *envFlow) Instr(in ssa.Instruction, s string) string {
 		if f.m.cellAddr(x.Addr, f.base) == "env" {
 			return f.classify(x.Val) + ";" + envPending(s)
 		}
+	case *ssa.Call:
+		if callee := staticCallee(x); callee != nil {
+			if k, ok := f.scopeParamK[callee]; ok && k < len(x.Call.Args) && sameBase(x.Call.Args[0], f.base) {
+				return f.classify(x.Call.Args[k]) + ";" + envPending(s)
+			}
+		}
 	case *ssa.Defer:
 		if c := f.deferredRestore(x); c != "" && envPending(s) == "" {
 			return envCur(s) + ";" + c // the first registered literal runs last
@@ -185,13 +204,40 @@ func checkC04(p *Program, r *Report) {
 	var switching []string
 	befores := map[*ssa.Function]map[ssa.Instruction]string{}
 	ctors := map[*ssa.Function]token.Pos{}
+	// scope-setting helpers: functions on a record (receiver) with exactly one parameter of the scope type that store to the cell
+	scopeParamK := map[*ssa.Function]int{}
+	for _, fn := range m.funcsOnRecord() {
+		if _, isParam := m.baseOf(fn).(*ssa.Parameter); !isParam || len(m.envStores(fn)) == 0 {
+			continue
+		}
+		k, n := -1, 0
+		for i, prm := range fn.Params {
+			if i > 0 && isNamed(prm.Type(), modPath+"/env", "Env") {
+				k = i
+				n++
+			}
+		}
+		if n == 1 {
+			scopeParamK[fn] = k
+		}
+	}
 	for _, fn := range m.funcsOnRecord() {
 		base := m.baseOf(fn)
 		if _, isParam := base.(*ssa.Parameter); !isParam {
 			continue // records allocated here are initialised, not switched
 		}
 		stores := m.envStores(fn)
-		if len(stores) == 0 {
+		callsHelper := false
+		for _, b := range fn.Blocks {
+			for _, in := range b.Instrs {
+				if c, ok := in.(*ssa.Call); ok {
+					if _, isH := scopeParamK[staticCallee(c)]; isH && staticCallee(c) != nil {
+						callsHelper = true
+					}
+				}
+			}
+		}
+		if len(stores) == 0 && !callsHelper {
 			continue
 		}
 		nFuncs++
@@ -212,7 +258,10 @@ func checkC04(p *Program, r *Report) {
 				}
 			}
 		}
-		fl := &envFlow{m: m, fn: fn, base: base, entry: map[ssa.Value]bool{}, ctors: ctors}
+		fl := &envFlow{m: m, fn: fn, base: base, entry: map[ssa.Value]bool{}, ctors: ctors, scopeParamK: scopeParamK}
+		if k, ok := scopeParamK[fn]; ok {
+			fl.paramScope = fn.Params[k]
+		}
 		for _, b := range fn.Blocks {
 			for _, in := range b.Instrs {
 				u, ok := in.(*ssa.UnOp)
@@ -254,6 +303,20 @@ func checkC04(p *Program, r *Report) {
 			seenRet[fmt.Sprintf("%s|return|%s", fname, exitKey(ret))]++
 			site := p.Pos(instrPos(ret))
 			r.Check(envCur(st) == envOrig, "C04.R1", inst, site, "scope cell holds the entry scope", "returns with the scope cell holding "+describeEnv(envCur(st))+": the caller continues in the wrong scope ("+exitDesc(ret)+")")
+		}
+		// a scope-setting helper is handed the scope that was current before the construct (its block then runs in a fresh child
+		// of that scope, and that scope is current again afterwards)
+		for _, b := range fn.Blocks {
+			for _, in := range b.Instrs {
+				c, ok := in.(*ssa.Call)
+				if !ok || staticCallee(c) == nil {
+					continue
+				}
+				if k, isH := scopeParamK[staticCallee(c)]; isH && k < len(c.Call.Args) {
+					r.Check(fl.classify(c.Call.Args[k]) == envOrig, "C04.R2", fmt.Sprintf("%s|scope handed to %s", fname, staticCallee(c).Name()), p.Pos(c.Pos()),
+						"the helper that runs the block in a fresh child scope is given the entry scope", "the block helper is given "+describeEnv(fl.classify(c.Call.Args[k]))+" instead of the scope current before the construct: the block runs in a child of the wrong scope and that scope stays current")
+				}
+			}
 		}
 		// R2: statements run in a child scope
 		for _, e := range va.events[fn] {
